@@ -19,6 +19,91 @@ func init() {
 const ih = "(*internal/api.ImportHandler)."
 
 func runC31(c *Ctx) {
+	c.Rule("C31.LATTICE", "DOM: in the CSV column type inference a candidate type is ruled out by a cell's own text, and its test may be skipped because another candidate is still alive only where that candidate's literals are a subset of its own (float may wait for int; int and bool wait for nobody) — otherwise cells seen while the other candidate was alive never get to rule it out, and a column such as `2,3,true,false` is stored as booleans")
+	if fn := c.MustFunc("C31.LATTICE", "internal/api.inferAndConvertColumn"); fn != nil {
+		allowed := map[string]map[string]bool{"isInt": {}, "isFloat": {"isInt": true}, "isBool": {}}
+		flags := map[*ssa.Phi]string{}
+		for _, in := range instrs(fn, false) {
+			ph, ok := in.(*ssa.Phi)
+			if !ok || ph.Type().String() != "bool" {
+				continue
+			}
+			if _, ok := allowed[ph.Comment]; !ok {
+				continue
+			}
+			header := false
+			for _, pr := range ph.Block().Preds {
+				if ph.Block().Dominates(pr) {
+					header = true
+				}
+			}
+			if header {
+				flags[ph] = ph.Comment
+			}
+		}
+		n := 0
+		for ph, name := range flags {
+			// where does `false` enter this flag? any phi (transitively, inside the loop) that feeds ph
+			seen := map[*ssa.Phi]bool{}
+			var walk func(x *ssa.Phi)
+			walk = func(x *ssa.Phi) {
+				if seen[x] {
+					return
+				}
+				seen[x] = true
+				for k, e := range x.Edges {
+					switch v := e.(type) {
+					case *ssa.Phi:
+						if v != ph {
+							walk(v)
+						}
+					case *ssa.Const:
+						if v.Value != nil && v.Value.String() == "false" && blockInCycle(x.Block()) {
+							n++
+							var deps []string
+							pred := x.Block().Preds[k]
+							for _, f := range append(factsAtBlock(pred), blockEdgeFactsDirect(pred.Idom(), pred)...) {
+								if f.Kind != factTrue && f.Kind != factFalse {
+									continue
+								}
+								if g, ok := f.Val.(*ssa.Phi); ok {
+									// the current value of a flag inside the loop body is a merge phi fed by the header phi
+									var root *ssa.Phi
+									seenG := map[*ssa.Phi]bool{}
+									var up func(y *ssa.Phi)
+									up = func(y *ssa.Phi) {
+										if seenG[y] || root != nil {
+											return
+										}
+										seenG[y] = true
+										if _, isFlag := flags[y]; isFlag {
+											root = y
+											return
+										}
+										for _, e2 := range y.Edges {
+											if z, ok := e2.(*ssa.Phi); ok {
+												up(z)
+											}
+										}
+									}
+									up(g)
+									if root != nil && root != ph {
+										if gn := flags[root]; !allowed[name][gn] {
+											deps = append(deps, gn)
+										}
+									}
+								}
+							}
+							sort.Strings(deps)
+							c.Check(len(deps) == 0, "C31.LATTICE", fmt.Sprintf("inferAndConvertColumn|%s-ruled-out#%d", name, n), x.Pos(), name+" is ruled out by the cell alone (or waits only for a subset type)", "the test that rules out "+name+" runs only while "+strings.Join(deps, ", ")+" has a particular value: cells seen before that never get to rule "+name+" out, so a column mixing integer codes and boolean words is stored as BOOLEAN and the codes are lost")
+						}
+					}
+				}
+			}
+			walk(ph)
+		}
+		c.Check(len(flags) == 3 && n >= 3, "C31.LATTICE", "inferAndConvertColumn|candidates", fn.Pos(), fmt.Sprintf("%d candidate flags, %d elimination sites", len(flags), n), fmt.Sprintf("expected the three candidate flags isInt/isFloat/isBool with an elimination site each; found %d flags, %d sites", len(flags), n))
+	}
 	c.Rule("C31.ATOMIC", "ORDER: importCSV/importParquet contain exactly one buffer write; no read, header validation or conversion step can execute after it (so a file that fails to parse or convert has stored nothing), and its row count is the count of rows read")
 	c.Rule("C31.ROWS", "PASS: in the CSV read loop every successfully read record reaches the next read only through the row counter increment and through a loop that appends one cell to every column")
 	c.Rule("C31.ALIGN", "FLOW: each non-time column is stored under header[i] with data converted from column i (one index value), the \"time\" entry is the conversion of the column whose index validateImportHeader returned for the requested time column, with the requested time_format")
